@@ -10,6 +10,17 @@ TRUST = ("z3 5.1.0 (thorough tier cross-checks every decided query with cvc5 1.4
          "semantics of the kernels; the stubs listed in the evidence file")
 
 CHECKS = {
+    "C04": dict(
+        text="PARTIAL (NLO closed-form clause only): the NLO kernels, reached through the light.{f2,fl,f3,g1}_{nc,cc} channel classes, "
+             "run on a symbolic z (branches inside kernels forked) and z3 proves, as an exact identity in (z, ln z, ln(1-z)), equality "
+             "of regular parts, plus-distribution coefficients and (to 1e-12) delta coefficients with the published MS-bar closed forms "
+             "for quark and gluon, nf 3..6. NOT claimed: Adler/GLS/Bjorken first moments and Mellin moments (definite integrals have no "
+             "SMT encoding within reach; a CAS would make the CAS, not the solver, the decider).",
+        note=TRUST + "; oracle written from Bardeen et al./Furmanski-Petronzio (F2, FL, F3) and Zijlstra-van Neerven/de Florian-Sassot "
+             "(g1) in the a_s = alpha_s/4pi normalisation; zeta2 as a 30-digit rational.",
+        technique="symbolic execution of the NLO kernels (z3 proxies, path exploration) + z3 NRA identity with published closed forms",
+        design="§4 C04",
+    ),
     "C16": dict(
         text="A: the real Combiner, kernel generators, channel constructors and order methods run for the cells of the configuration "
              "lattice kind x heavyness x process x projectile x scheme/NfFF/FONLL-part x PTO with Q2 symbolic (all threshold paths); "
